@@ -202,6 +202,8 @@ HIST_SCRIPTS = [
     ["append", "append", "append", "delcur", "append", "delcur", "delcur", "append", "append"],
     ["append", "append", "append", "deloldest", "append", "delsnap", "append", "delcur", "append"],
     ["append", "delfiles", "append", "delfiles", "append+expire", "append", "delcur", "append"],
+    # a three-file manifest partially deleted TWICE (the second delete rewrites a manifest that is itself a rewrite)
+    ["append3", "append", "delone", "append", "delone", "append", "delone"],
 ]
 
 
@@ -230,6 +232,20 @@ def _histories(ctx, rep, model_ok):
                         if kind == "append":
                             t.append_records(tablekit.rows(rng.randint(1, 2), start=si * 10))
                             op_tok = f"add:{now}:{next_id}:-"
+                        elif kind == "append3":
+                            with t.new_transaction() as tx:
+                                for j_ in range(3):
+                                    tx.append_data(tablekit.rows(1, start=si * 10 + j_))
+                                tx.commit()
+                            op_tok = f"add:{now}:{next_id}:-"
+                        elif kind == "delone":
+                            cur_paths = tablekit.data_paths(t)
+                            victims = cur_paths[:1]
+                            with t.new_transaction() as tx:
+                                tx.delete_files(["/" + victims[0]])
+                                tx.commit()
+                            op_tok = f"add:{now}:{next_id}:-"
+                            trace.append(["expect-deleted", victims])
                         elif kind == "append+expire":
                             cutoff = rng.choice([0, 1000, 2000, 2600, 3000, 9999])
                             with t.new_transaction() as tx:
@@ -304,7 +320,7 @@ def _histories(ctx, rep, model_ok):
                         break
                     bad, md = res
                     bad2, paths = invariants.observe_manifests(path, ghost, md)
-                    if kind == "delfiles":
+                    if kind in ("delfiles", "delone"):
                         gone = set(trace[-2][1])
                         expect = [p for p in known_paths if p not in gone]
                         if sorted(paths) != sorted(expect):
@@ -390,6 +406,54 @@ def _retried_commits(ctx, rep):
         shutil.rmtree(base, ignore_errors=True)
 
 
+def _stale_hint_commits(ctx, rep):
+    """a commit made while the pointer parses but is stale (legacy bare number / names a file that is gone): the metadata log of the new
+    version names only files that exist, and the new file's version number is above every existing version"""
+    import re
+    base = scratch_dir("c15s-")
+    try:
+        for how in ("legacy-number", "newest-file-lost", "legacy-number-of-missing"):
+            path = os.path.join(base, how)
+            t = tablekit.create(path)
+            for i in range(3):
+                t.append_records(tablekit.rows(1, start=i * 10))
+            store = reader.DirStore(path)
+            ptr = reader.pointer(store)
+            cur_v = int(reader.META_RE.match(ptr[1]).group(1))
+            hp = os.path.join(path, "metadata.version-hint.text")
+            if how == "legacy-number":
+                open(hp, "w").write(str(cur_v))
+            elif how == "legacy-number-of-missing":
+                open(hp, "w").write(str(cur_v + 4))
+            else:
+                os.remove(os.path.join(path, "metadata", ptr[1]))
+            del t
+            try:
+                h = tablekit.load(path)
+                h.append_records(tablekit.rows(1, start=900))
+            except Exception as e:      # noqa: BLE001
+                rep.distribution[f"stale-hint:{how}:raise:{type(e).__name__}"] += 1
+                continue
+            rep.evaluations += 1
+            rep.nontrivial(["stale-hint", how])
+            p2 = reader.pointer(store)
+            md = reader.read_metadata(store, p2[1])
+            files = {n for ns in reader.metadata_files(store).values() for n in ns}
+            case = {"kind": "commit-under-stale-pointer", "pointer": how}
+            for e_ in md.get("metadata_log", []):
+                name = e_["metadata-file"].rsplit("/", 1)[-1]
+                if name not in files:
+                    rep.violate("C15:invariant:metadata-log-names-a-missing-version", f"pointer {how}: after the commit the metadata log names {name}, "
+                                f"which does not exist", case)
+            newv = int(reader.META_RE.match(p2[1]).group(1))
+            others = [int(reader.META_RE.match(n).group(1)) for n in files if n != p2[1] and reader.META_RE.match(n)]
+            if others and newv <= max(others):
+                rep.violate("C15:invariant:new-version-number-not-above-existing", f"pointer {how}: the commit wrote version {newv} although version "
+                            f"{max(others)} exists", case)
+    finally:
+        shutil.rmtree(base, ignore_errors=True)
+
+
 def run(ctx, model_ok):
     rep = Report()
     rep.rule = ("repoint: every forest of ≤3 snapshots (parents None/-1/any id incl. self, cycles, dangling) × every kept subset, every 7th "
@@ -403,4 +467,5 @@ def run(ctx, model_ok):
     _check_mlog(ctx, rep, model_ok)
     _histories(ctx, rep, model_ok)
     _retried_commits(ctx, rep)
+    _stale_hint_commits(ctx, rep)
     return rep
